@@ -296,6 +296,67 @@ def build_cells(lib):
     inn("HybridRSPNewtonSchulz.compute", "boundary_1x1", lambda A: sv.HybridRSPNewtonSchulz(r=1, max_iter=20, seed=1).compute(A), Q(spd_tall(1, 1)))
     inn("HybridRSPNewtonSchulz.compute", "boundary_3x1", lambda A: sv.HybridRSPNewtonSchulz(r=1, max_iter=20, seed=1).compute(A), Q(spd_tall(3, 1)))
     out("CGNEQSolver.compute", "wrong_orientation_wide", lambda A: sv.CGNEQSolver(max_iter=20).compute(A), Q(gen(2, 3)))
+    # ---------------- near-miss spellings of every enumerated string option: the empty string, a prefix, a suffix, another letter case,
+    # padding, a doubled value and the concatenation of all valid values must all be rejected (a membership test written as a substring
+    # test, startswith, lower() or `in "ab"` instead of `in ("a", "b")` accepts some of them)
+    def near_misses(valid):
+        outl = []
+        for v in valid:
+            for cand in ("", v[:1], v[:-1], v[1:], v.upper(), v.capitalize(), v + " ", " " + v, v + v, v + "s", "-" + v):
+                if cand not in valid and cand not in outl:
+                    outl.append(cand)
+        for cand in ("".join(valid), ",".join(valid), " ".join(valid)):
+            if cand not in valid and cand not in outl:
+                outl.append(cand)
+        return outl
+
+    T_ = Q(np.arange(2 * 3 * 4 * 4, dtype=float).reshape(2, 3, 4, 4))
+    imgq, psfq = np.arange(3 * 4 * 4, dtype=float).reshape(3, 4, 4) / 7, np.array([[0.0, 0.2, 0.0], [0.3, 0.1, 0.2], [0.0, 0.2, 0.0]])
+    option_sites = [
+        ("matrix_norm.ord", ("fro", "F", "inf"), lambda o: u.matrix_norm(Q(gen(2, 3)), o)),
+        ("matrix_norm.ord@1x3", ("fro", "F", "inf"), lambda o: u.matrix_norm(Q(gen(1, 3)), o)),
+        ("quaternion_to_complex_adjoint.axis", ("x",), lambda o: u.quaternion_to_complex_adjoint(Q(gen(2, 2)), o)),
+        ("det.d", ("Dieudonne", "Dieudonné", "Moore"), lambda o: u.det(Q(herm(2)), o)),
+        ("quat_null_space.side", ("right", "left"), lambda o: u.quat_null_space(Q(gen(2, 3)), o)),
+        ("quat_kernel.side", ("right", "left"), lambda o: u.quat_kernel(Q(gen(2, 3)), o)),
+        ("power_iteration_nonhermitian.eigenvalue_format", ("complex", "quaternion"), lambda o: u.power_iteration_nonhermitian(Q(gen(2, 2)), eigenvalue_format=o)),
+        ("power_iteration_nonhermitian.subfield_axis", ("x",), lambda o: u.power_iteration_nonhermitian(Q(gen(2, 2)), subfield_axis=o)),
+        ("quaternion_schur.shift", ("rayleigh", "wilkinson", "double"), lambda o: SC.quaternion_schur(Q(gen(3, 3)), max_iter=5, shift=o)),
+        ("quaternion_schur_pure.shift_mode", ("none", "rayleigh"), lambda o: SC.quaternion_schur_pure(Q(gen(3, 3)), max_iter=5, shift_mode=o)),
+        ("quaternion_schur_pure_implicit.shift_mode", ("none", "rayleigh"), lambda o: SC.quaternion_schur_pure_implicit(Q(gen(3, 3)), max_iter=5, shift_mode=o)),
+        ("quaternion_schur_unified.variant", ("none", "rayleigh", "implicit", "aed", "ds"), lambda o: SC.quaternion_schur_unified(Q(gen(3, 3)), variant=o, max_iter=5)),
+        ("quaternion_schur_experimental.variant", ("aed_windowed", "francis_ds"), lambda o: SC.quaternion_schur_experimental(Q(gen(3, 3)), variant=o, max_iter=5)),
+        ("apply_blur_fft.boundary", ("periodic",), lambda o: q.apply_blur_fft(imgq.copy(), psfq.copy(), o)),
+        ("qslst_restore_fft.boundary", ("periodic",), lambda o: q.qslst_restore_fft(imgq.copy(), psfq.copy(), 0.1, o)),
+        ("QGMRESSolver.preconditioner", ("none", "left_lu"), lambda o: sv.QGMRESSolver(preconditioner=o).solve(Q(A33), Q(b3))),
+        ("RSP.column_solver", ("qr", "spd"), lambda o: rsp(column_solver=o).compute_column_variant(Q(spd_tall(3, 2)))),
+        ("HybridRSPNewtonSchulz.column_solver", ("qr", "spd"), lambda o: sv.HybridRSPNewtonSchulz(r=1, max_iter=5, seed=1, column_solver=o).compute(Q(spd_tall(3, 2)))),
+    ]
+    # these two options are matched case-insensitively by design (explicit .lower() in the constructors), and a falsy
+    # preconditioner ('' like None) means "none": such spellings are in-domain there and are not cells
+    CASE_INSENSITIVE = {"QGMRESSolver.preconditioner", "RSP.column_solver", "HybridRSPNewtonSchulz.column_solver"}
+    for site, valid, fcall in option_sites:
+        for cand in near_misses(valid):
+            if site in CASE_INSENSITIVE and (cand.lower() in valid or (cand == "" and site == "QGMRESSolver.preconditioner")):
+                continue
+            out(site, f"unknown_option_nearmiss_{cand!r}", fcall, cand)
+        for v in valid:
+            inn(site, f"valid_option_{v!r}", fcall, v)
+    # ---------------- Householder helpers: shape-coupled argument pairs (same element count, different shape), zero and non-zero targets
+    e3c, e3r, e3f = np.array([[1.0], [0.0], [0.0]]), np.array([[1.0, 0.0, 0.0]]), np.array([1.0, 0.0, 0.0])
+    a3c, a3r, a3f = Q(gen(3, 1)), Q(gen(1, 3)), Q(gen(3, 1))[:, 0]
+    for hn, hf in (("householder_matrix", TR.householder_matrix), ("householder_vector", TR.householder_vector)):
+        for an, a_ in (("col", a3c), ("row", a3r), ("flat", a3f)):
+            for vn, v_ in (("col", e3c), ("row", e3r), ("flat", e3f)):
+                for zn, z in (("unit", 1.0), ("zero", 0.0)):
+                    if hn == "householder_vector" and zn == "zero":
+                        continue  # a zero target is outside householder_vector's own domain; not a shape question
+                    if an == vn:
+                        if an == "flat":  # the form every caller in the library uses; (n,1)/(1,n) pairs are not claimed either way
+                            inn(hn, f"matching_shapes_{an}_{zn}", hf, a_.copy(), v_ * z)
+                    else:
+                        out(hn, f"mismatched_shapes_{an}_vs_{vn}_{zn}_target", hf, a_.copy(), v_ * z)
+        out(hn, "mismatched_length", hf, a3c.copy(), np.array([[1.0], [0.0]]))
     inn("CGNEQSolver.compute", "boundary_1x1", lambda A: sv.CGNEQSolver(max_iter=20).compute(A), Q(spd_tall(1, 1)))
     inn("CGNEQSolver.compute", "boundary_3x1", lambda A: sv.CGNEQSolver(max_iter=20).compute(A), Q(spd_tall(3, 1)))
     out("DeepLinearNewtonSchulz.compute", "layer_mismatch", lambda X, L: sv.DeepLinearNewtonSchulz(max_iter=2).compute(X, L), Q(spd_tall(3, 2)), [3, 2])
